@@ -10,6 +10,8 @@
 From Lib Require Import Bytes Varint SymCrypto.
 From Model Require Import C05_AdSignature.
 From Proofs Require Import C05_AdSignature.
+From Model Require Import Compose_C05_C13.
+From Proofs Require Import Compose_C05_C13.
 From Coq Require Import List.
 Import ListNotations.
 Open Scope N_scope.
@@ -241,3 +243,117 @@ Theorem observation_extended_providers_removable :
    verify_gen Sym.verify Sym.peer_id Sym.peerid_eqb (ideal_H Witness.toyH) (ids_decode Witness.ids0) true (set_ext a None)) = Ok 0.
 Proof. exact Witness.extended_providers_removable. Qed.
 Print Assumptions observation_extended_providers_removable.
+
+(* ================================================================== *)
+(* Composition with C13 (IPLD schema layer + DAG-CBOR, model/C13_*.v): the abstract
+   round-trip hypothesis of sign_verify_after_round_trip is replaced by C13's PROVED
+   round trip.  A = Model.C05_AdSignature, S = Model.C13_IpldSchema.  The protobuf layer
+   of a signature envelope, which neither model covers, is the pair env_encode
+   (Envelope.Marshal) / env_decode (UnmarshalEnvelope) with the named laws env_round_trip
+   and env_empty; of_c13 is the abstraction from C13's advertisement (signature BYTES) to
+   C05's (parsed envelope), to_c13 its section.  Proofs.Compose_C05_C13.WitnessC.laws shows
+   the premises of sign_then_wire_then_verify can be met together. *)
+
+(* (1) The two records agree on every field they share, in both directions; parsing the
+   signature bytes of the C13 image gives the C05 advertisement back, and the image
+   determines it. *)
+Theorem wire_mapping_commutes :
+  forall (pubkey sigt : Type) (env_encode : envelope pubkey sigt -> bytes)
+         (env_decode : bytes -> option (envelope pubkey sigt)),
+  (forall a : A.ad pubkey sigt,
+     S.a_prev (to_c13 env_encode a) = A.a_prev a /\ S.a_provider (to_c13 env_encode a) = A.a_provider a /\
+     S.a_addrs (to_c13 env_encode a) = A.a_addrs a /\ S.a_ctx (to_c13 env_encode a) = A.a_ctx a /\
+     S.a_meta (to_c13 env_encode a) = A.a_md a /\ S.a_isrm (to_c13 env_encode a) = A.a_rm a /\
+     (forall ent, A.a_entries a = Some ent -> S.a_entries (to_c13 env_encode a) = ent) /\
+     S.a_sig (to_c13 env_encode a) = wire_bytes env_encode (A.a_sig a) /\
+     S.a_ext (to_c13 env_encode a) = option_map (ext_to_c13 env_encode) (A.a_ext a)) /\
+  (forall x : A.ext pubkey sigt,
+     S.x_provs (ext_to_c13 env_encode x) = map (prov_to_c13 env_encode) (A.x_providers x) /\
+     S.x_override (ext_to_c13 env_encode x) = A.x_override x) /\
+  (forall p : A.provider pubkey sigt,
+     S.p_id (prov_to_c13 env_encode p) = A.p_id p /\ S.p_addrs (prov_to_c13 env_encode p) = A.p_addrs p /\
+     S.p_meta (prov_to_c13 env_encode p) = A.p_md p /\ S.p_sig (prov_to_c13 env_encode p) = wire_bytes env_encode (A.p_sig p)) /\
+  (forall c : S.ad,
+     A.a_prev (of_c13 env_decode c) = S.a_prev c /\ A.a_provider (of_c13 env_decode c) = S.a_provider c /\
+     A.a_addrs (of_c13 env_decode c) = S.a_addrs c /\ A.a_ctx (of_c13 env_decode c) = S.a_ctx c /\
+     A.a_md (of_c13 env_decode c) = S.a_meta c /\ A.a_rm (of_c13 env_decode c) = S.a_isrm c /\
+     A.a_entries (of_c13 env_decode c) = Some (S.a_entries c) /\
+     A.a_sig (of_c13 env_decode c) = env_decode (S.a_sig c) /\
+     A.a_ext (of_c13 env_decode c) = option_map (ext_of_c13 env_decode) (S.a_ext c)) /\
+  (forall x : S.extprov,
+     A.x_providers (ext_of_c13 env_decode x) = map (prov_of_c13 env_decode) (S.x_provs x) /\
+     A.x_override (ext_of_c13 env_decode x) = S.x_override x) /\
+  (forall p : S.provider,
+     A.p_id (prov_of_c13 env_decode p) = S.p_id p /\ A.p_addrs (prov_of_c13 env_decode p) = S.p_addrs p /\
+     A.p_md (prov_of_c13 env_decode p) = S.p_meta p /\ A.p_sig (prov_of_c13 env_decode p) = env_decode (S.p_sig p)) /\
+  (env_round_trip env_encode env_decode -> env_empty env_decode ->
+   (forall a : A.ad pubkey sigt, A.a_entries a <> None -> of_c13 env_decode (to_c13 env_encode a) = a) /\
+   (forall a b : A.ad pubkey sigt, A.a_entries a <> None -> A.a_entries b <> None ->
+      to_c13 env_encode a = to_c13 env_encode b -> a = b)).
+Proof. exact mapping_commutes. Qed.
+Print Assumptions wire_mapping_commutes.
+
+(* (2) Every advertisement signed with Sign / SignWithExtendedProviders, written with C13's
+   DAG-CBOR encoder (ad_encode = encode of ad_to_node), read back with C13's typed load and
+   verified, gives Ok (peer_id (pub k)).  Well-formedness C13's round trip needs: S.wf_ad of
+   the UNSIGNED advertisement (strings / byte strings are bytes of at most 32 MiB, links are
+   CIDs cid.Cast accepts, list lengths < 2^63); that signed advertisements then satisfy it is
+   proved, from: the marshalled form of an envelope the library seals is a byte string
+   within the limit (sealed_env_bytes_ok), and the digest is 32 bytes. *)
+Theorem sign_then_wire_then_verify :
+  forall (privkey pubkey sigt peerid : Type) (pub : privkey -> pubkey) (sign : privkey -> bytes -> sigt)
+         (verify : pubkey -> bytes -> sigt -> bool) (peer_id : pubkey -> peerid)
+         (peerid_eqb : peerid -> peerid -> bool) (Hf : bytes -> bytes) (decode_pid : bytes -> option peerid)
+         (env_encode : envelope pubkey sigt -> bytes) (env_decode : bytes -> option (envelope pubkey sigt)),
+  env_round_trip env_encode env_decode -> env_empty env_decode ->
+  sealed_env_bytes_ok privkey pubkey sigt pub sign env_encode ->
+  A.H_len32 Hf -> H_bytes Hf ->
+  (forall a b : peerid, peerid_eqb a b = true <-> a = b) -> VerifySign pub sign verify ->
+  (forall (st : bool) (a a' : A.ad pubkey sigt) (k : privkey),
+     S.wf_ad (to_c13 env_encode a) = true ->
+     A.sign_plain pub sign (A.ideal_H Hf) a k = Ok a' ->
+     wire_verify env_decode verify peer_id peerid_eqb (A.ideal_H Hf) decode_pid st (wire_encode env_encode a')
+     = Ok (peer_id (pub k))) /\
+  (forall (a a' : A.ad pubkey sigt) (k : privkey) (fetch : bytes -> res privkey),
+     S.wf_ad (to_c13 env_encode a) = true ->
+     A.sign_with_eps pub sign (A.ideal_H Hf) a k fetch = Ok a' ->
+     (forall x p, A.a_ext a = Some x -> In p (A.x_providers x) -> A.is_main a p = false ->
+                  forall key, fetch (A.p_id p) = Ok key -> decode_pid (A.p_id p) = Some (peer_id (pub key))) ->
+     wire_verify env_decode verify peer_id peerid_eqb (A.ideal_H Hf) decode_pid true (wire_encode env_encode a')
+     = Ok (peer_id (pub k))).
+Proof. exact sign_wire_verify. Qed.
+Print Assumptions sign_then_wire_then_verify.
+
+(* (3) Tampering shows on the wire and is rejected behind it: an advertisement that differs
+   from an accepted one in a single signed value (one_value_changed: the 6 + 5 values, all
+   signatures kept) has a different DAG-CBOR encoding (C13's encoding is injective on
+   well-formed values) and, decoded from its own encoding, does not verify. *)
+Theorem wire_tamper_detected :
+  forall (pubkey sigt peerid : Type) (verify : pubkey -> bytes -> sigt -> bool) (peer_id : pubkey -> peerid)
+         (peerid_eqb : peerid -> peerid -> bool) (Hf : bytes -> bytes) (decode_pid : bytes -> option peerid)
+         (env_encode : envelope pubkey sigt -> bytes) (env_decode : bytes -> option (envelope pubkey sigt)),
+  env_round_trip env_encode env_decode -> env_empty env_decode ->
+  (forall a b : peerid, peerid_eqb a b = true <-> a = b) -> A.H_injective Hf ->
+  forall (st st' : bool) (a b : A.ad pubkey sigt) (s : peerid),
+  A.verify_gen verify peer_id peerid_eqb (A.ideal_H Hf) decode_pid st a = Ok s ->
+  one_value_changed pubkey sigt a b -> A.a_entries b <> None ->
+  S.wf_ad (to_c13 env_encode a) = true -> S.wf_ad (to_c13 env_encode b) = true ->
+  wire_encode env_encode b <> wire_encode env_encode a /\
+  is_ok (wire_verify env_decode verify peer_id peerid_eqb (A.ideal_H Hf) decode_pid st' (wire_encode env_encode b)) = false.
+Proof. exact wire_tamper. Qed.
+Print Assumptions wire_tamper_detected.
+
+(* ... and for ANY bytes on the wire (not only encodings of well-formed values): if what
+   the typed decoder reads differs from an accepted advertisement in a single signed value,
+   verification fails. *)
+Theorem wire_tamper_detected_any_bytes :
+  forall (pubkey sigt peerid : Type) (verify : pubkey -> bytes -> sigt -> bool) (peer_id : pubkey -> peerid)
+         (peerid_eqb : peerid -> peerid -> bool) (Hf : bytes -> bytes) (decode_pid : bytes -> option peerid)
+         (env_decode : bytes -> option (envelope pubkey sigt)),
+  (forall a b : peerid, peerid_eqb a b = true <-> a = b) -> A.H_injective Hf ->
+  forall (st st' : bool) (a : A.ad pubkey sigt) (s : peerid) (w : bytes) (c : S.ad),
+  A.verify_gen verify peer_id peerid_eqb (A.ideal_H Hf) decode_pid st a = Ok s ->
+  S.typed_load_ad w = Ok c -> one_value_changed pubkey sigt a (of_c13 env_decode c) ->
+  is_ok (wire_verify env_decode verify peer_id peerid_eqb (A.ideal_H Hf) decode_pid st' w) = false.
+Proof. exact wire_decoded_tamper. Qed.
+Print Assumptions wire_tamper_detected_any_bytes.
